@@ -14,7 +14,8 @@ RUNS = {"quick": 10000, "thorough": 250000}
 BUDGET_S = {"quick": 60, "thorough": 900}
 RULE = ("seeded middleware stacks (0..3 recording middlewares, random subset of the six hooks overridden, sync or async with "
         "suspension, message-replacing pre_send/pre_execute adding a chain label), all task outcomes, failing kick(), failing "
-        "store, concurrent messages; checked per send and per delivery; non-trivial = overlap or a fault fired")
+        "store, concurrent messages; kick() fails with one of ten exception classes incl. taskiq's own; 20% of the runs send through "
+        "a shared task + default broker; checked per send and per delivery; non-trivial = overlap or a fault fired")
 
 KNOBS = {
     "n_msgs": (1, 10),
